@@ -366,6 +366,9 @@ pub enum RunEnd {
 pub enum Op {
     KeyUpdate { ep: usize },
     Ping { ep: usize },
+    /// the application tells its connections that the network path has changed
+    /// (`Connection::path_changed`: RTT estimate, congestion controller and MTU discovery restart)
+    PathChanged { ep: usize },
     SetRecvWindow { ep: usize, v: u64 },
     SetSendWindow { ep: usize, v: u64 },
     SetMaxConcurrent { ep: usize, bidi: bool, v: u64 },
@@ -1446,6 +1449,14 @@ impl World {
                 for c in self.eps[ep].conns.values_mut() {
                     if !c.c.is_closed() {
                         c.c.ping();
+                    }
+                }
+            }
+            Op::PathChanged { ep } => {
+                for c in self.eps[ep].conns.values_mut() {
+                    if !c.c.is_closed() && !c.c.is_handshaking() {
+                        c.c.path_changed(now);
+                        self.mon.cnt.inc("op.path_changed");
                     }
                 }
             }
